@@ -586,7 +586,9 @@ func runInventoryCmd(args []string) {
 									}
 								}
 								for _, n := range names {
-									stateSites = append(stateSites, fmt.Sprintf("%s|%s|field|%s %s", rel, x.Name.Name, n, exprText(fset, fl.Type)))
+									// identified by the field's type: renaming a field is not new state, one more field of a type is (counted)
+									_ = n
+									stateSites = append(stateSites, fmt.Sprintf("%s|%s|field|%s", rel, x.Name.Name, exprText(fset, fl.Type)))
 								}
 							}
 						}
@@ -679,12 +681,14 @@ func runInventoryCmd(args []string) {
 						switch f := x.Fun.(type) {
 						case *ast.Ident:
 							if f.Name == "panic" {
-								add(&panicSites, "panic", x)
+								// identified by the statement alone: rewording the message is not a new panic, one more panic in the
+								// package is (counted)
+								panicSites = append(panicSites, fmt.Sprintf("%s|%s|panic|panic", rel, fn))
 							}
 						case *ast.SelectorExpr:
 							if panicSelectors[f.Sel.Name] || strings.HasPrefix(f.Sel.Name, "Must") {
 								// identified by the callee (receiver erased), not by the shape of the arguments
-								panicSites = append(panicSites, fmt.Sprintf("%s|%s|call:%s|%s", rel, fn, f.Sel.Name, shapeText(fset, x.Fun, pkgs)))
+								panicSites = append(panicSites, fmt.Sprintf("%s|%s|call:%s|%s", rel, fn, f.Sel.Name, f.Sel.Name))
 							}
 							if id, ok := f.X.(*ast.Ident); ok {
 								if id.Name == "time" && (f.Sel.Name == "Now" || f.Sel.Name == "Since") && !metricsOnly[x.Pos()] {
